@@ -1,7 +1,7 @@
 (* C19 -- non-vacuity: concrete inputs meet the hypotheses of the theorems. *)
 From Coq Require Import QArith Qcanon ZArith List Arith Bool PrimFloat Lia.
 From Verif.lib Require Import Bsp NpCore NpQ NpF.
-From Verif.C19 Require Import Model Proofs Proofs2 Proofs4 Proofs5 Proofs6 FloatGridDefs FloatProofs.
+From Verif.C19 Require Import Model Model2 Proofs Proofs2 Proofs4 Proofs5 Proofs6 Proofs8 Proofs9 FloatGridDefs FloatProofs.
 Import ListNotations.
 Open Scope Qc_scope.
 
@@ -90,3 +90,27 @@ Proof. repeat split; vm_compute; reflexivity. Qed.
 (* N_right_end: the last function (index 8) of ex_kv at u = 1 *)
 Example ex_right_end : kn ex_kv 8 < kn ex_kv 9 /\ qeqb (kn ex_kv 9) (kn ex_kv (length ex_kv - 1)) = true /\ this (Nref ex_kv 2 8 (q 1 1)) = 1%Q.
 Proof. repeat split; vm_compute; reflexivity. Qed.
+
+(* k2m / span cells / mesh-support pairs on ex_kv = [0,0,0,1/4,1/4,1/2,1/2,3/4,3/4,1,1,1] *)
+Example ex_k2m_iso : map (k2m ex_kv) (mesh_span_indices ex_kv) = seq 0 (numspans ex_kv)
+                     /\ k2m ex_kv 0 = 0%nat /\ k2m ex_kv (length ex_kv - 1) = 4%nat /\ k2m ex_kv 5 = S (k2m ex_kv 4).
+Proof. repeat split; vm_compute; reflexivity. Qed.
+Example ex_span_cell : (2 < numspans ex_kv)%nat /\ nth 2 (mesh_span_indices ex_kv) 0%nat = 6%nat
+                       /\ this (nth 2 (mesh ex_kv) 0) = (1 # 2)%Q /\ this (kn ex_kv 6) = (1 # 2)%Q.
+Proof. split; [vm_compute; lia|repeat split; vm_compute; reflexivity]. Qed.
+Example ex_msi_ordered : mesh_support_idx ex_kv 2 3 = (1, 2)%nat /\ kn ex_kv 3 < kn ex_kv (3 + 2 + 1)
+                         /\ mesh_support_idx ex_kv 2 0 = (0, 1)%nat.
+Proof. repeat split; vm_compute; reflexivity. Qed.
+(* span search, array form and first-active indices *)
+Example ex_findspans : findspans ex_kv 2 [q 0 1; q 3 8; q 1 2; q 1 1] = [2; 4; 6; 8]%nat
+                       /\ first_active_all ex_kv 2 [q 0 1; q 3 8; q 1 2; q 1 1] = [0; 2; 4; 6]%Z
+                       /\ first_active_at_z ex_kv 2 (q 3 8) = 2%Z /\ numdofs ex_kv 2 = 9%nat.
+Proof. repeat split; vm_compute; reflexivity. Qed.
+Example ex_unique_hyp : (S 4 < length ex_kv)%nat /\ kn ex_kv 4 <= q 3 8 /\ q 3 8 < kn ex_kv 5 /\ findspan ex_kv 2 (q 3 8) = 4%nat.
+Proof. split; [vm_compute; lia|]. split; [discriminate|]. split; vm_compute; reflexivity. Qed.
+Example ex_meshsize : this (meshsize_avg ex_kv) = (1 # 4)%Q /\ this (fst (support_all ex_kv)) = 0%Q /\ this (snd (support_all ex_kv)) = 1%Q.
+Proof. repeat split; vm_compute; reflexivity. Qed.
+(* refine_nested: the double knot 1/4 plus one inserted 1/4 gives multiplicity 3 *)
+Example ex_refine_count : count_occ Qc_eq_dec (refine ex_kv [q 1 3; q 1 4]) (q 1 4) = 3%nat
+                          /\ numdofs (refine ex_kv [q 1 3; q 1 4]) 2 = 11%nat.
+Proof. split; vm_compute; reflexivity. Qed.
